@@ -6,3 +6,6 @@ import "github.com/kitex-contrib/xds/core/xdsresource"
 
 // verifYield is a no-op unless the package is built with the `verif` tag.
 func verifYield(int, xdsresource.ResourceType, string) {}
+
+// verifSender is a no-op unless the package is built with the `verif` tag.
+func verifSender(*xdsClient, int) {}
